@@ -81,6 +81,12 @@ OPS = {
     "mnfull_str":   dict(rule=_r(["ov"], {"mnemonics-full-match": "true"}), rule_path="p1.yaml", input="L1"),
     "opfull_str":   dict(rule=_r([{"mov": ["rax"]}], {"operands-full-match": "false", "mnemonics-full-match": False}), rule_path="p2.yaml", input="L1"),
     "sections_str": dict(rule=_r(["push"], {"sections": ".text"}), rule_path="p3.yaml", input="BIN", binary=True),
+    "bad_not2":     dict(rule=_r([{"$not": ["mov", "push"]}, "ret"]), rule_path="p1.yaml", input="L1"),
+    "empty_or":     dict(rule=_r(["mov", {"$or": []}]), rule_path="p2.yaml", input="L1"),
+    "bad_suffix":   dict(rule=_r([{"push": ["&stackreg-1.8H"]}]), rule_path="p3.yaml", input="L1"),
+    "bad_deref":    dict(rule=_r([{"mov": [{"$deref": {"constant_offset": "0x8"}}]}]), rule_path="p1.yaml", input="L1"),
+    "bad_times":    dict(rule=_r([{"mov": {"times": {"min": 3, "max": 1}}}]), rule_path="p2.yaml", input="L1"),
+    "bad_regex":    dict(rule=_r([{"mov": ["(%rbx"]}], {"operands-full-match": True}), rule_path="p3.yaml", input="L1"),
     "missing_in":   dict(rule=_r(["mov"], {"operands-full-match": True}), rule_path="p3.yaml", input="MISSING"),
     "first_bool":   dict(rule=_r([{"mov": ["rax"]}]), rule_path="p1.yaml", input="L1", modes=("bool", "first", False)),
     "first_list":   dict(rule=_r(["push"]), rule_path="p1.yaml", input="L1", modes=("list", "first", False)),
@@ -172,6 +178,8 @@ def snapshot():
             key = f"{mname}.{name}"
             if isinstance(val, (list, dict, set)) and getattr(val, "__module__", None) != "typing":
                 out[key] = _dump(val)
+            elif isinstance(val, (int, float, str, bool, type(None))) and not isinstance(val, type) and not name.isupper() and name != name.upper():
+                out[key] = val          # lower-case module-level scalars (counters, flags); ALL_CAPS constants are skipped
             elif hasattr(val, "cache_info") and callable(val):
                 out[key + "#cache"] = val.cache_info().currsize
             elif isinstance(val, type) and getattr(val, "__module__", None) == mname:
@@ -187,6 +195,8 @@ def snapshot():
                             out[f"{key}.{an}#defaults"] = _dump(muts)
                     if isinstance(av, (list, dict, set)):
                         out[f"{key}.{an}"] = _dump(av)
+                    elif isinstance(av, (int, float, str, bool)) and not an.isupper() and type(val).__name__ != "EnumType" and an not in ("__module__", "__qualname__", "__doc__", "_value_", "_name_"):
+                        out[f"{key}.{an}"] = av      # class-level scalars (counters such as a nesting depth)
                     elif an in ("_instance", "global_info") or (not callable(av) and not isinstance(av, (str, int, float, bool, type(None), property, staticmethod, classmethod, types.MemberDescriptorType, types.GetSetDescriptorType)) and hasattr(av, "__dict__") and not isinstance(av, type)):
                         out[f"{key}.{an}"] = _dump(av)
             elif isinstance(val, types.FunctionType) and getattr(val, "__module__", None) == mname and val.__defaults__:
@@ -267,6 +277,30 @@ def tree(workdir, first, depth, out_fd, prefix=None):
         os.waitpid(pid, 0)
 
 
+def accumulate(workdir, op, counts, out_fd):
+    """Histories op^k . probe for k in counts and every probe operation: state that only shows after MANY repetitions
+    (counters, growing lists, caches filling up).  One child repeats `op`; at each checkpoint it forks one grandchild per probe."""
+    pid = os.fork()
+    if pid == 0:
+        try:
+            for k in range(1, max(counts) + 1):
+                run_op(workdir, op)
+                if k in counts:
+                    for probe in OP_NAMES:
+                        gp = os.fork()
+                        if gp == 0:
+                            try:
+                                outcome = run_op(workdir, probe)
+                                os.write(out_fd, (json.dumps({"hist": [op] * k + [probe], "k": k, "outcome": outcome, "snap": snap_key(snapshot())}, default=str) + "\n").encode())
+                            except BaseException as e:  # noqa
+                                os.write(out_fd, (json.dumps({"hist": [op] * k + [probe], "error": repr(e)}) + "\n").encode())
+                            os._exit(0)
+                        os.waitpid(gp, 0)
+        finally:
+            os._exit(0)
+    os.waitpid(pid, 0)
+
+
 def main():
     mode, workdir = sys.argv[1], sys.argv[2]
     if mode == "one":
@@ -281,6 +315,9 @@ def main():
     elif mode == "tree":
         _import_pristine()
         tree(workdir, sys.argv[3], int(sys.argv[4]), 1)
+    elif mode == "accum":
+        _import_pristine()
+        accumulate(workdir, sys.argv[3], [int(x) for x in sys.argv[4].split(",")], 1)
     else:
         raise SystemExit("unknown mode")
 
